@@ -14,17 +14,95 @@ META = {
                    "&str parameter that was parsed; every location is converted (loop over the whole set, no filter) and the set of lines is returned. "
                    "R02.range: every value returned by get_line_number is >= 1. R02.canon: the body is the canonical form "
                    "1 + |{ i < offset : text.bytes[i] == '\\n' }| (bytes().take(offset).filter(== b'\\n').count() + 1, or the equivalent counting loop); byte offsets, "
-                   "so CRLF and multi-byte characters before the construct are handled by construction. R02.reported: which node's location each detector inserts is "
-                   "compared with the detector specs (DESIGN section 8) by the C05-C09 checks; here only that each detector's result is what is converted.",
+                   "so CRLF and multi-byte characters before the construct are handled by construction. R02.where: for every detector with a specification, each location it inserts is - relative to the node it matched - one of the "
+                   "report paths of its specification (the construct's own location, not that of an operand); which nodes match and when is decided by C05-C09.",
     "assumptions": ["Loc::start() is the byte offset of the first byte of the construct (parser contract)",
                     "Iterator::take/filter/count and str::bytes semantics (std contract)"],
-    "floors": {"R02.plumb": 9, "R02.range": 1, "R02.canon": 1},
+    "floors": {"R02.plumb": 9, "R02.range": 1, "R02.canon": 1, "R02.where": 20},
 }
+
+
+def _relative(ps):
+    """access path relative to the matched node: every `search{..}(..)[*]` prefix (innermost first) is replaced by `n`"""
+    import re
+    while True:
+        k = ps.find("search{")
+        if k < 0:
+            return ps
+        # find the matching parenthesis of the search's argument list
+        p = ps.find("(", k)
+        if p < 0:
+            return ps
+        depth, q = 0, p
+        while q < len(ps):
+            if ps[q] == "(":
+                depth += 1
+            elif ps[q] == ")":
+                depth -= 1
+                if depth == 0:
+                    break
+            q += 1
+        if q >= len(ps):
+            return ps
+        m = re.match(r"\[\*(#[0-9?]+)?\]", ps[q + 1:])
+        if not m:
+            # a search result used as a whole: leave a marker so that the loop terminates
+            ps = ps[:k] + "SEARCH" + ps[k + len("search"):]
+            continue
+        ps = ps[:k] + "n" + ps[q + 1 + m.end():]
+
+
+def where_obligations(crate, disp):
+    """R02.where: the location a detector hands to the line lookup is the location of the flagged construct itself (one of the report paths of its
+    specification, taken relative to the matched node), not of a part of it or of a neighbour: a multi-line construct is reported where it begins.
+    Which nodes are matched, and under which condition, is C05..C09's business."""
+    import summary
+    from rules import speccmp
+    from core import show
+    obs = []
+    spec = speccmp.load_spec()
+    sm = summary.Summ(crate)
+    for d in disp.values():
+        if not d.ok or d.problems:
+            continue
+        for variant, s in sorted(d.table.items()):
+            body = crate.bodies.get(s.resolved) or crate.bodies.get(s.path)
+            if body is None:
+                continue
+            name = body.path.split("::")[-2] if body.path.count("::") >= 2 else ""
+            if name not in spec:
+                continue
+            want = set(_relative(ps) for (ps, _must, _may, _ln) in spec[name].reports)
+            try:
+                reps = sm.reports(body)
+            except summary.Unanalysable as e:
+                obs.append(Ob("R02.where", body.path, "%s: reported locations extractable" % name, False, found=str(e)))
+                continue
+            got = set()
+            for (t, _f, _s) in reps:
+                ps = _relative(show(t))
+                m = speccmp_alt(ps)
+                got |= m
+            extra = sorted(got - want)
+            obs.append(Ob("R02.where", body.path, "%s hands the flagged construct's own location to the line lookup" % name, not extra and bool(got),
+                          expected="locations relative to the matched node: %s" % sorted(want), found=extra or sorted(got),
+                          example="a require( whose && condition starts on the next line"))
+    return obs
+
+
+def speccmp_alt(ps):
+    """an or-pattern path base↓{A|B}.k stands for one path per alternative"""
+    import re
+    m = re.match(r"^(.*)↓\{([A-Za-z0-9_|]+)\}(.*)$", ps)
+    if not m:
+        return {ps}
+    return set("%s↓%s%s" % (m.group(1), v, m.group(3)) for v in m.group(2).split("|"))
 
 
 def run(ctx, crate):
     obs = []
     disp = D.all_dispatch(crate)
+    obs += where_obligations(crate, disp)
     for d in disp.values():
         if not d.ok or d.problems:
             obs.append(Ob("R02.plumb", d.path, "dispatch analysable", False, found=d.problems if d.ok else "missing"))
